@@ -319,6 +319,16 @@ func (e *Exec) evalExternal(call *ast.CallExpr, st *State, ctx *Ctx) []string {
 		if len(call.Args) == 2 {
 			return []string{"(pathJoin " + arg(0) + " " + arg(1) + ")"}
 		}
+	case "gopkg.in/yaml.v3.Node.ShortTag":
+		e.note("yaml.Node.ShortTag() is the uninterpreted function yamlShortTag of the node (resolved tag; external library)")
+		return []string{"(yamlShortTag " + e.eval(call.Fun.(*ast.SelectorExpr).X, st, ctx) + ")"}
+	case "strconv.ParseBool":
+		e.note("strconv.ParseBool / ParseInt / ParseFloat are uninterpreted deterministic parses of the text")
+		return []string{"(parseBoolV " + arg(0) + ")", "(parseBoolE " + arg(0) + ")"}
+	case "strconv.ParseInt":
+		return []string{"(parseIntV " + arg(0) + " " + arg(1) + " " + arg(2) + ")", "(parseIntE " + arg(0) + " " + arg(1) + " " + arg(2) + ")"}
+	case "strconv.ParseFloat":
+		return []string{"(parseFloatV " + arg(0) + " " + arg(1) + ")", "(parseFloatE " + arg(0) + " " + arg(1) + ")"}
 	case "encoding/json.Number.Int64":
 		e.note("json.Number.Int64 / Float64 are the uninterpreted parses numInt64 / numFloat of the literal (strconv; assumed deterministic)")
 		recv := e.eval(call.Fun.(*ast.SelectorExpr).X, st, ctx)
